@@ -2,7 +2,25 @@
 
 ALL_FAMILIES = "seeds_sample,grammar,layout,soup,bytes,mutate"
 
+FMT_BINDING_C01 = ["marks", "lv", "prec", "wc", "nd", "out", "*"]
+
 PROPS = {
+    "C01": {
+        "level": "proof",
+        "lean": ["PasfmtModel.Props.C01"],
+        "streams": [
+            {"stream": "fmt", "families": ALL_FAMILIES, "quick": 3000, "thorough": 40000, "binding": FMT_BINDING_C01},
+            {"stream": "lex", "families": ALL_FAMILIES, "quick": 1500, "thorough": 20000, "name": "lexer"},
+        ],
+        "oracle_prefixes": ["c01", "glue", "lex"],
+        "abnormal_binding": False,
+        "explanation": "C01_format_partial: for every input, configuration, parser output and wrapper behaviour satisfying the frame "
+                       "contract, fold(stripBlank(format s)) = fold(stripBlank s). Exact model parts (lexer, the three content rules, "
+                       "reconstruction, pipeline glue) are tied to the code by the fmt/lex streams; the wrapper frame (wc) and the "
+                       "no-dangling-E3 side condition (nd) are evaluated by the Lean driver on every case.",
+        "assumptions": ["WrapFrame (wrapper keeps token vector, changes only blanks of contents) - checked per case (wc=1)",
+                        "token contents have no dangling E3 byte (consequence of valid UTF-8; checked per case, nd=1)"],
+    },
     "C13": {
         "level": "proof",
         "lean": ["PasfmtModel.Props.C13"],
